@@ -23,7 +23,7 @@ import (
 func init() {
 	core.Register(&core.Check{
 		ID:        "C16",
-		Also:      []string{"C16M"}, // bursts over a real MConnection (mconn.go)
+		Also:      []string{"C16M", "C16G"}, // bursts over a real MConnection (mconn.go)
 		Level:     "exploration",
 		Technique: "hostile-input monitoring of the real reactor + state machine in a deterministic simulation: every message goes through ConsensusReactor.Receive as bytes, then through the state machine's peer queue; oracles: no panic after the reactor accepted the message, bounded fault-free continuation commits the next block, per-message allocation bound",
 		Rule: "case = a 4-node simulation driven to a random consensus state, then 10 hostile messages from one peer (role: outsider, validator with a valid key, or the current proposer with its key) to one victim: " +
